@@ -281,7 +281,7 @@ Section ResponseProps.
     (forall op, In op ops -> no_generated op) ->
     import_full doc ops = import_oas2 safe is_builtin tname fname unesc map_type native doc.
   Proof.
-    intros H. unfold ResponseSpec.import_full, import_oas2, ResponseSpec.full_types, ResponseSpec.build_ops, convert.
+    intros H. unfold ResponseSpec.import_full, import_oas2, ResponseSpec.full_types, ResponseSpec.build_ops, convert, ResponseSpec.loaded_types.
     rewrite fold_ops_same; [reflexivity|].
     intros op Hop. apply H. unfold order_ops in Hop. apply sort_In in Hop. unfold by_method in Hop.
     apply in_flat_map in Hop. destruct Hop as [m [_ Hf]]. apply filter_In in Hf. apply Hf.
